@@ -198,7 +198,7 @@ the `Print Assumptions` summary.
 | C16 | checker soundness | - | reduce agrees on sector, tapering step, projection / freezing matrix elements, Pauli rotation | sector spectra, SCBK |
 | C17 | product homomorphism, checker soundness | - | low-rank reconstruction, one-body-squared identity, spin-orbital expansion, every active-space partition | truncation values, RDM identities |
 | C18 | `C18_grouping_is_partition` (every seed / shuffle family, every operator); checker soundness (by unfolding) | - | grouping model replayed with the recorded shuffles; complete outputs of all generators on complete length ranges | - |
-| C19 | - | alias tables exact for n <= 5, t <= 5 | alias tables, discretisation, norms, QR/QI over complete ranges, QR2/QI2, power_two, cost arithmetic | - |
+| C19 | `C19_alias_table_exact` (every non-negative weight list summing to n t: no overrun, exact table) | same for n <= 5, t <= 5 by enumeration | alias tables, discretisation, norms, QR/QI over complete ranges, QR2/QI2, power_two, cost arithmetic | - |
 | C20 | save/load state machine: no overwrite (step and histories), load-after-save | - | histories vs model, print/parse | MolecularData round trips (HDF5) |
 
 ---------------------------------------------------------------------------------------------
@@ -222,8 +222,8 @@ LIMITS = r'''
   harmless refactoring, but it is not an unbounded theorem about that code; the bounded / unbounded
   theorems that exist are listed in section 3.
 * **Not done (planned as P2/P3):** `pauli_faithful` (completeness of the normal form), the abstract
-  linear-encoding theorem lifting the BK set identities to all n, unbounded proofs for the alias
-  table and `pair_within` (bounded instead),
+  linear-encoding theorem lifting the BK set identities to all n, an unbounded proof for
+  `pair_within` (bounded instead),
   real-analysis
   lemmas for gate families, `[S]` symbolic-size theorems (replaced by per-input exact checks).
 * Bounded theorems state their bound; the correspondence covers the same domain completely where the
